@@ -12,10 +12,8 @@ NA = {
 PENDING = {
  "C01": "engine not built yet in this snapshot (E-T/E-W translation validation of the lowering stages); see DESIGN.md section 8",
  "C04": "engine not built yet in this snapshot (operator templates / libsam.wat symbolic execution)",
- "C05": "engine not built yet in this snapshot (Kani lexer scanner harnesses)",
  "C06": "engine not built yet in this snapshot (integer literal range kernel)",
- "C14": "engine not built yet in this snapshot (Location algebra / scanner bookkeeping harnesses)",
- "C18": "engine not built yet in this snapshot (symbolic execution of std/*.sam MIR)",
+ "C18": "engine not built: the planned check (one inductive step of Map/Set operations on symbolic trees, executed on the MIR of std/*.sam by E-T) was not completed; no other technique is substituted",
 }
 import sys
 claimed = json.load(open('/verif/manifest_checks.json'))
@@ -33,8 +31,10 @@ m = {
   "add_only": True
  },
  "engines": [
-  {"name": "E-M", "path": "/verif/vlib/mir.py", "serves_properties": ["C02", "C03"], "kind_free_text": "symbolic execution of rustc MIR (-Zunpretty=mir) of the current tree into z3 terms; z3 + cvc5 (bit-vectors) and an exact integer re-encoding (vlib/bv2int.py) for division/multiplication kernels"},
-  {"name": "E-K", "path": "/verif/vlib/kani.py", "serves_properties": ["C17"], "kind_free_text": "Kani 0.68 / CBMC 6.11 proof harnesses appended as child modules to the scratch copy of the crate"},
+  {"name": "E-T", "path": "/verif/vlib/irsym.py", "serves_properties": ["C01", "C02"], "kind_free_text": "symbolic execution of MIR/LIR snapshots of the real pipeline + SMT equivalence (translation validation)"},
+  {"name": "E-W", "path": "/verif/vlib/wat.py", "serves_properties": ["C01", "C04"], "kind_free_text": "symbolic interpreter for the emitted WAT text and libsam.wat"},
+  {"name": "E-M", "path": "/verif/vlib/mir.py", "serves_properties": ["C02", "C03", "C06"], "kind_free_text": "symbolic execution of rustc MIR (-Zunpretty=mir) of the current tree into z3 terms; z3 + cvc5 (bit-vectors) and an exact integer re-encoding (vlib/bv2int.py) for division/multiplication kernels"},
+  {"name": "E-K", "path": "/verif/vlib/kani.py", "serves_properties": ["C05", "C14", "C17"], "kind_free_text": "Kani 0.68 / CBMC 6.11 proof harnesses appended as child modules to the scratch copy of the crate"},
   {"name": "E-D", "path": "/verif/checks/c07.py", "serves_properties": ["C07"], "kind_free_text": "z3 algebraic-datatype oracle over all values vs. the real checker run on enumerated pattern lists"},
   {"name": "driver", "path": "/verif/driver", "serves_properties": ["C02", "C03", "C07"], "kind_free_text": "native Rust driver built against the scratch copy: kernel entry points for translator validation / witness replay, real type checker and compile pipeline"}
  ],
